@@ -77,6 +77,28 @@ class C07Episode(Episode):
                     return _o(*a_, **kw)
                 setattr(sk, meth, wrapped)
         self.finish_setup()
+        self.world.reply_hooks.append(self.on_reload_reply)
+
+    def on_reload_reply(self, r, ent):
+        """sockets that a reloadconfig added are managed sockets like the
+        others from the reply on"""
+        o = ent[5]
+        if r.cmd != 'reloadconfig' or not isinstance(o, dict) or \
+                o.get('status') != 'ok':
+            return
+        for key, sk in self.world.arbiter.sockets.items():
+            if key.lower() in self.socks or key == 'circushttpd':
+                continue
+            try:
+                st = os.fstat(sk.fileno())
+            except (OSError, ValueError):
+                continue
+            self.socks[key.lower()] = {
+                'sock': sk, 'bind': 1, 'listen': 1, 'close': 0,
+                'kind': 'unix', 'reuseport': False, 'name': key,
+                'seqpacket': False, 'ino': (st.st_dev, st.st_ino),
+                'fd': sk.fileno(), 'addr': sk.getsockname()}
+            self.probes['socket_added_by_reloadconfig'] += 1
 
     def write_c07_ini(self):
         from .. import ini
@@ -96,7 +118,13 @@ class C07Episode(Episode):
         if st is None or self.world.daemon_gone():
             return
         ws = st['ws']
-        if op['kind'] == 'change':
+        if op['kind'] == 'addsocket':
+            # a socket section appears in the file: existing watchers can
+            # refer to it from then on
+            if not any(x['name'] == 'extra' for x in st['socks']):
+                st['socks'].append({'name': 'extra', 'path': os.path.join(
+                    os.path.dirname(st['path']), 'extra.sock')})
+        elif op['kind'] == 'change':
             ent = ws[op['w'] % len(ws)]
             ent['graceful_timeout'] = ent['graceful_timeout'] + 1
         else:
@@ -485,6 +513,23 @@ class C07(Prop):
                     out.append({'op': 'c07edit', 'w': rng.randrange(8),
                                 'kind': rng.choice(['change', 'add'])})
             out.append(op)
+        if cfg.get('from_ini') and rng.random() < 0.25:
+            # the file gains a socket, and a watcher that was there all
+            # along is then told (set cmd) to hand it to its workers
+            wi = rng.randrange(len(cfg['watchers']))
+            wc = cfg['watchers'][wi]
+            wc['opts']['use_sockets'] = True
+            out.extend([
+                {'op': 'c07edit', 'kind': 'addsocket', 'w': 0},
+                {'op': 'req', 'cmd': 'reloadconfig', 'w': None, 'props': {},
+                 'waiting': True, 'place': 'now'},
+                {'op': 'wait', 'kind': 'replies'},
+                {'op': 'req', 'cmd': 'set', 'w': wi, 'waiting': True,
+                 'props': {'options': {'cmd': wc['cmd'] + ' --fd-extra='
+                                       '$(circus.sockets.extra)'}},
+                 'place': 'now'},
+                {'op': 'wait', 'kind': 'replies'},
+                {'op': 'quiet', 'checks': 1}])
         return {'cfg': cfg, 'ops': out}
 
     def run(self, case):
